@@ -8,6 +8,7 @@ mod path;
 mod sigv4;
 mod secret;
 mod timestamp;
+mod fsback;
 
 fn main() {
     let args: Vec<String> = std::env::args().skip(1).collect();
@@ -27,6 +28,7 @@ fn main() {
         Some("host-style") => service::host_style(),
         Some("copy-source") => service::copy_source(),
         Some("events") => service::events(),
+        Some("fs-paths") => fsback::paths(),
         Some("xml-docs") => service::xml_docs(&args[1..]),
         Some("event-frames") => service::event_frames(),
         Some("presigned-date") => service::presigned_date(&args[1..]),
